@@ -397,6 +397,7 @@ def worker_history(seed, tier, out_path):
     res["dump"] = uni.dump(amp, frames)
     res["obs0"] = obs0
     snap = Snapshot(uni.keys)
+    spec_key_ids = {(id(t), a) for (t, a) in uni.keys}
     res["notes"]["snapshot_objects"] = len(snap.objs)
     res["notes"]["snapshot_entries"] = len(snap.base)
     leaves0 = {k: _leaves(v) for k, v in models.items()}
@@ -535,6 +536,12 @@ def worker_history(seed, tier, out_path):
         stats["snapshots"] += 1
         for (o, name, b, a) in lookup:
             k = f"{_qual(o)}.{name}"
+            if not ((id(o), name) in spec_key_ids or callable(b) or callable(a)):
+                # plain data re-bound by the library itself (counters, flags): recorded, not a patch leak
+                if k not in lookup_seen:
+                    lookup_seen.add(k)
+                    res.setdefault("data_rebinds", []).append({"attr": k, "before": repr(b)[:60], "after": repr(a)[:60]})
+                continue
             if k not in lookup_seen:
                 lookup_seen.add(k)
                 res.setdefault("lookup_diffs", []).append({"attr": k, "before": repr(b)[:120], "after": repr(a)[:120],
@@ -606,7 +613,7 @@ def worker_history(seed, tier, out_path):
             "fail_unsupported", "fail_lowering", "fail_function_body_trace", "fail_function_body_lowering",
             "fail_serialization", "fail_output_names", "user_toggles_x64", "ok_jnp", "fail_trace", "user_toggles_x64",
             "ok_linear", "fail_lowering"]
-    extra_n = 14 if tier == "quick" else 120
+    extra_n = 14 if tier == "quick" else 400
     allk = ["ok_jnp", "ok_linear", "ok_linen", "ok_eqx", "ok_onnx_function", "ok_nested_function", "ok_file", "fail_trace",
             "fail_unsupported", "fail_lowering", "fail_function_body_trace", "fail_function_body_lowering",
             "fail_serialization", "fail_output_names", "user_toggles_x64"]
@@ -644,7 +651,7 @@ def worker_history(seed, tier, out_path):
         ("cold-export-fails-in-lowering", [("XF", 0, 0), ("E", 0, 0)]),
         ("two-callees", [("X", 0, 0), ("E", 1, 0), ("X", 1, 1), ("E", 1, 1), ("E", 0, 1)]),
     ]
-    for _ in range(3 if tier == "quick" else 20):
+    for _ in range(3 if tier == "quick" else 60):
         n = rng.randint(2, 5)
         scen.append(("random", [(rng.choice(["X", "E", "E", "XF"]), rng.randint(0, 1), rng.randint(0, 1)) for _ in range(n)]))
     for name, evs in scen:
@@ -764,6 +771,691 @@ def worker_poison(seed, tier, out_path):
                                         f"UserBlock.__call__; eager call of the user model afterwards: {res['eager_after']}",
                                 "replay": {"kind": "poison"}})
     json.dump(res, open(out_path, "w"), default=str)
+
+
+
+# =====================================================================================  MAIN SIDE
+COQ_HEADER = """From Coq Require Import ZArith List Bool.
+From J2O Require Import Patch.
+Import ListNotations.
+Open Scope N_scope.
+Set Printing Width 1000000.
+Set Printing Depth 1000000.
+Fixpoint bad_idx_ {A} (f : A -> bool) (i : nat) (l : list A) : list nat :=
+  match l with [] => [] | x :: r => if f x then bad_idx_ f (S i) r else i :: bad_idx_ f (S i) r end.
+"""
+
+
+def _lst(items):
+    return "[" + "; ".join(items) + "]"
+
+
+def _opt(x):
+    return "None" if x is None else f"(Some {x}%N)"
+
+
+def _obs_lit(obs):
+    return _lst(f"({t},{a},{_opt(o)},{_opt(l)})" for (t, a, o, l) in obs)
+
+
+def _spec_lit(d):
+    if d[0] == "assign":
+        return f"DAssign {d[1]} {d[2]} {d[3]}%N"
+    if d[0] == "monkey":
+        return f"DMonkey {d[1]} {d[2]} {d[3]}%N"
+    return f"DMonkeyRaise {d[1]} {d[2]}"
+
+
+def _fault_lit(f):
+    return f if isinstance(f, str) else f"({f[0]} {f[1]})"
+
+
+class Val:
+    __slots__ = ("id",)
+
+    def __init__(self, i):
+        self.id = i
+
+    def __repr__(self):
+        return f"Val({self.id})"
+
+
+class FaultMeta(type):
+    """classes whose attribute assignment can be made to raise once (before or after taking effect)"""
+    trigger = None
+
+    def __setattr__(cls, name, value):
+        tr = FaultMeta.trigger
+        if tr is not None and tr[0] is cls and tr[1] == name:
+            FaultMeta.trigger = None
+            if tr[2] == "after":
+                super().__setattr__(name, value)
+            raise RuntimeError("c13: injected setattr fault")
+        super().__setattr__(name, value)
+
+
+class _BodyError(Exception):
+    pass
+
+
+ATTRS = ["a0", "a1", "a2"]
+
+
+def _synth_targets(rng):
+    import types
+    classes = []
+    for i in range(rng.randint(1, 5)):
+        c = None
+        for _ in range(6):
+            k = rng.choice([0, 1, 1, 2, 2]) if classes else 0
+            bases = tuple(rng.sample(classes, min(k, len(classes))))
+            try:
+                c = FaultMeta(f"C{i}", bases, {})
+                break
+            except TypeError:
+                continue
+        if c is None:
+            c = FaultMeta(f"C{i}", (), {})
+        classes.append(c)
+    mods = [types.ModuleType(f"c13_mod{j}") for j in range(rng.randint(1, 2))]
+    insts = [rng.choice(classes)() for _ in range(rng.choice([0, 0, 1]))]
+    targets = classes + mods + insts
+    nid = [0]
+
+    def fresh():
+        nid[0] += 1
+        return Val(nid[0])
+    own = []
+    for ti, t in enumerate(targets):
+        for ai, a in enumerate(ATTRS):
+            if rng.random() < 0.35:
+                v = fresh()
+                setattr(t, a, v)
+                own.append((ti, ai, v.id))
+    mro = []
+    for t in targets:
+        idx = {id(x): i for i, x in enumerate(targets)}
+        mro.append([idx[id(c)] for c in _mro_strict(t) if id(c) in idx])
+    return targets, classes, mro, own
+
+
+def _observe(targets):
+    out = []
+    for ti, t in enumerate(targets):
+        for ai, a in enumerate(ATTRS):
+            o = vars(t).get(a)
+            l = getattr(t, a, MISSING)
+            out.append((ti, ai, None if o is None else o.id, None if l is MISSING else l.id))
+    return out
+
+
+def gen_patch_case(rng, ci):
+    from jax2onnx.plugins._patching import AssignSpec, MonkeyPatchSpec
+    targets, classes, mro, own = _synth_targets(rng)
+    n_frames = rng.randint(1, 3)
+    real, model = [], []
+    gidx = 0
+    for _fi in range(n_frames):
+        fr_r, fr_m = [], []
+        for _ in range(rng.randint(0, 4)):
+            gidx += 1
+            ti = rng.randrange(len(targets))
+            ai = rng.randrange(len(ATTRS))
+            r = rng.random()
+            if r < 0.42:
+                v = Val(1000 + gidx)
+                fr_r.append(AssignSpec(targets[ti], ATTRS[ai], v))
+                fr_m.append(("assign", ti, ai, v.id))
+            elif r < 0.94:
+                base = 10000 * gidx
+                fr_r.append(MonkeyPatchSpec(targets[ti], ATTRS[ai],
+                                            (lambda b: (lambda orig: Val(b + (0 if orig is None else orig.id + 1))))(base)))
+                fr_m.append(("monkey", ti, ai, base))
+            else:
+                def _raise(orig):
+                    raise RuntimeError("c13: make_value raises")
+                fr_r.append(MonkeyPatchSpec(targets[ti], ATTRS[ai], _raise))
+                fr_m.append(("raise", ti, ai))
+        real.append(fr_r)
+        model.append([fr_m, "NoFault"])
+    body_raises = False
+    fkind = "none"
+    positions = [(fi, k) for fi, fr in enumerate(model) for k in range(len(fr[0]))]
+    r = rng.random()
+    if r < 0.22:
+        body_raises, fkind = True, "body"
+    elif r < 0.40 and positions:
+        fi, k = rng.choice(positions)
+        real[fi][k] = AssignSpec("c13_no_such_module_xyz.attr", "a0", Val(1))
+        model[fi][0][k] = ("assign", 0, 0, 1)
+        model[fi][1] = ("BeforeSet", k)
+        fkind = "resolve"
+    elif r < 0.62 and positions:
+        # setattr raising on a class target, only when this spec is the first to assign that (class, attr)
+        cands = []
+        seen = set()
+        for fi, fr in enumerate(model):
+            for k, d in enumerate(fr[0]):
+                key = (d[1], d[2])
+                if key not in seen and d[1] < len(classes) and d[0] != "raise":
+                    cands.append((fi, k, d))
+                seen.add(key)
+        if cands:
+            fi, k, d = rng.choice(cands)
+            mode = rng.choice(["before", "after"])
+            FaultMeta.trigger = (targets[d[1]], ATTRS[d[2]], mode)
+            model[fi][1] = ("BeforeSet" if mode == "before" else "AfterSet", k)
+            fkind = "setattr-" + mode
+    if any(d[0] == "raise" for fr in model for d in fr[0]) and fkind == "none":
+        fkind = "make_value"
+    from jax2onnx.plugins._patching import apply_patches
+    before = _observe(targets)
+    mid = [None]
+
+    def rec(i):
+        if i == len(real):
+            mid[0] = _observe(targets)
+            if body_raises:
+                raise _BodyError()
+            return
+        with apply_patches(real[i]):
+            rec(i + 1)
+    try:
+        rec(0)
+        oc = "Returned"
+    except Exception:  # noqa: BLE001
+        oc = "Raised"
+    FaultMeta.trigger = None
+    after = _observe(targets)
+    lit = ("(" + _lst(f"({i},{_lst(map(str, m))})" for i, m in enumerate(mro)) + ", "
+           + _lst(f"({t},{a},{v}%N)" for (t, a, v) in own) + ", "
+           + _lst(f"({_lst(_spec_lit(d) for d in fr)},{_fault_lit(f)})" for fr, f in model) + ", "
+           + ("false" if body_raises else "true") + ", "
+           + ("None" if mid[0] is None else f"(Some {_obs_lit(mid[0])})") + ", "
+           + _obs_lit(after) + ", " + oc + ")")
+    info = {"fault": fkind, "frames": n_frames, "specs": sum(len(fr[0]) for fr in model),
+            "dups": sum(len(fr[0]) for fr in model) - len({(d[1], d[2]) for fr in model for d in fr[0]}),
+            "perfect": after == before, "lookup_restored": [x[3] for x in after] == [x[3] for x in before],
+            "multi_inherit": any(len(c.__bases__) > 1 for c in classes),
+            "model": {"mro": mro, "own": own, "frames": model, "body_raises": body_raises}, "after": after, "before": before}
+    return lit, info
+
+
+def gen_amp_case(rng, ci):
+    from unittest import mock
+    from jax2onnx.plugins import plugin_system as ps
+    targets, classes, mro, own = _synth_targets(rng)
+    ks_model = []
+    stubs = {}
+    gidx = 0
+    for si in range(rng.randint(1, 4)):
+        gidx += 1
+        ai = rng.randrange(len(ATTRS))
+        tis = [rng.randrange(len(targets)) for _ in range(rng.choice([1, 1, 2]))]
+        raising = rng.random() < 0.12
+        base = 10000 * gidx
+        if raising:
+            def fn(orig):
+                raise RuntimeError("c13: patch_function raises")
+        else:
+            fn = (lambda b: (lambda orig: Val(b + orig.id + 1)))(base)
+
+        class _Stub:
+            pass
+        st = _Stub()
+        st.patch_info = (lambda tl, f, an: (lambda: {"patch_targets": tl, "patch_function": f, "target_attribute": an}))(
+            [targets[i] for i in tis], fn, ATTRS[ai])
+        stubs[f"c13_stub_{si}"] = st
+        for ti in tis:
+            ks_model.append((ti, ai, "PfRaise" if raising else f"(PfAffine {base}%N)"))
+    depth = rng.randint(1, 3)
+    body_raises = rng.random() < 0.35
+    before = _observe(targets)
+    ps._PATCH_STATE.clear()
+
+    def rec(d):
+        if d == 0:
+            if body_raises:
+                raise _BodyError()
+            return
+        with ps.apply_monkey_patches():
+            rec(d - 1)
+    with mock.patch.dict(ps.PLUGIN_REGISTRY, stubs, clear=True):
+        try:
+            rec(depth)
+            oc = "Returned"
+        except Exception:  # noqa: BLE001
+            oc = "Raised"
+    after = _observe(targets)
+    psafter = []
+    for ti, t in enumerate(targets):
+        for ai, a in enumerate(ATTRS):
+            st = ps._PATCH_STATE.get((t, a))
+            psafter.append((ti, ai, None if st is None else (st["orig"].id, st["count"])))
+    leaked_state = len(ps._PATCH_STATE)
+    ps._PATCH_STATE.clear()
+    lit = ("(" + _lst(f"({i},{_lst(map(str, m))})" for i, m in enumerate(mro)) + ", "
+           + _lst(f"({t},{a},{v}%N)" for (t, a, v) in own) + ", "
+           + _lst(f"({t},{a},{p})" for (t, a, p) in ks_model) + ", " + str(depth) + "%nat, "
+           + ("false" if body_raises else "true") + ", " + _obs_lit(after) + ", "
+           + _lst(f"({t},{a},{'None' if e is None else f'(Some ({e[0]}%N,{e[1]}%Z))'})" for (t, a, e) in psafter) + ", " + oc + ")")
+    missing_key = any(getattr(targets[t], ATTRS[a], MISSING) is MISSING for (t, a, _p) in ks_model)
+    info = {"depth": depth, "keys": len(ks_model), "body_raises": body_raises, "enter_fault": leaked_state > 0,
+            "perfect": after == before and leaked_state == 0, "outcome": oc,
+            "lookup_restored": [x[3] for x in after] == [x[3] for x in before],
+            "model": {"mro": mro, "own": own, "keys": ks_model, "depth": depth, "body_raises": body_raises},
+            "before": before, "after": after,
+            "dups": len(ks_model) - len({(t, a) for (t, a, _p) in ks_model})}
+    return lit, info
+
+
+def x64_cases():
+    """the real context managers against every (previous flag, requested, body behaviour, exit)"""
+    import jax
+    from jax2onnx.user_interface import _temporary_x64
+    from jax2onnx.converter.conversion_api import _force_jax_x64
+    saved = bool(jax.config.jax_enable_x64)
+    out = []
+    for which, cm in (("T", _temporary_x64), ("F", _force_jax_x64), ("TF", None)):
+        for prev in (False, True):
+            for en in (False, True):
+                for sets in (None, False, True):
+                    for raises in (False, True):
+                        jax.config.update("jax_enable_x64", prev)
+                        seen = [None]
+
+                        def body():
+                            seen[0] = bool(jax.config.jax_enable_x64)
+                            if sets is not None:
+                                jax.config.update("jax_enable_x64", sets)
+                            if raises:
+                                raise _BodyError()
+                        try:
+                            if which == "TF":
+                                with _temporary_x64(en):
+                                    with _force_jax_x64(en):
+                                        body()
+                            else:
+                                with cm(en):
+                                    body()
+                            oc = "Returned"
+                        except _BodyError:
+                            oc = "Raised"
+                        out.append((which, prev, en, sets, raises, seen[0], bool(jax.config.jax_enable_x64), oc))
+    jax.config.update("jax_enable_x64", saved)
+    return out
+
+
+def _b(x):
+    return "true" if x else "false"
+
+
+def _parse_coq_values(out):
+    """all `= <term> : <type>` results of a coqc run, as Python objects"""
+    import ast
+    import re
+    vals = []
+    for m in re.finditer(r"=\s*(.*?)\s*:\s*(?:list|bool|nat|\()", out.replace("\n", " ")):
+        t = m.group(1).replace(";", ",").replace("true", "True").replace("false", "False").replace("%nat", "").replace("%N", "")
+        t = re.sub(r"\bnil\b", "[]", t)
+        try:
+            vals.append(ast.literal_eval(t))
+        except Exception:  # noqa: BLE001
+            vals.append(None)
+    return vals
+
+
+def _spawn(mode, seed, tier, out_path):
+    env = dict(os.environ)
+    env["PYTHONPATH"] = os.environ.get("VERIF_REPO", "/repo") + os.pathsep + env.get("PYTHONPATH", "")
+    env.setdefault("JAX_PLATFORMS", "cpu")
+    return subprocess.Popen([sys.executable, os.path.abspath(__file__), mode, str(seed), tier, out_path],
+                            stdout=subprocess.PIPE, stderr=subprocess.STDOUT, text=True, env=env, cwd=HERE)
+
+
+def _collect(proc, out_path, timeout):
+    try:
+        log, _ = proc.communicate(timeout=timeout)
+    except subprocess.TimeoutExpired:
+        proc.kill()
+        log, _ = proc.communicate()
+        return None, "timeout\n" + (log or "")[-1500:]
+    if proc.returncode != 0 or not os.path.exists(out_path):
+        return None, (log or "")[-2000:]
+    return json.load(open(out_path)), ""
+
+
+def run(ctx):
+    import common
+    rng = ctx.rng
+    quick = ctx.tier == "quick"
+    ctx.trusted_base = [
+        "Coq 8.16.1 kernel; vm_compute (no native_compute); all C13 theorems closed under the global context (no axioms)",
+        "theories/Patch.v is a HAND-WRITTEN model of _patching.apply_patches, plugin_system.apply_monkey_patches, "
+        "_temporary_x64/_force_jax_x64 and of jax.jit's trace cache; it is tied to the running code by the obligations "
+        "tie:* of this run (differential execution on synthetic targets with a fault at every position, and on the real spec list)",
+        "Python attribute semantics assumed by the model: getattr = first own entry along [obj] + MRO; setattr/delattr act on "
+        "the own dict; no descriptors / metaclass fall-back / module __getattr__ on patched keys (checked per key on this run)",
+        "inspect.getattr_static, jax.tree_util (observation of the real process)",
+    ]
+    ctx.assumptions = [
+        "single-threaded conversions: patches are process-global, interleaved activations of two threads are outside the model",
+        "no asynchronous exception (KeyboardInterrupt, MemoryError) between setattr and applied.append "
+        "(C13_async_fault_after_setattr_leaks shows the leak if one strikes there)",
+        "setattr that succeeded when applying succeeds when restoring (the finally loop has no handler around setattr)",
+        "snapshot scope: modules loaded in the worker whose top-level package is one of " + ", ".join(SCOPE) +
+        " and every class a patch spec touches, with its MRO and subclasses",
+    ]
+    work = ctx.work
+    hist_out, poison_out = os.path.join(work, "hist.json"), os.path.join(work, "poison.json")
+    p_hist = _spawn("history", ctx.seed, ctx.tier, hist_out)
+    p_poison = _spawn("poison", ctx.seed, ctx.tier, poison_out)
+
+    # ---- (a) proofs
+    common.build_props(ctx, "C13", [])
+
+    # ---- (b) tie D: model == running code on synthetic targets
+    n_p = 360 if quick else 8000
+    n_a = 160 if quick else 3000
+    pc = [gen_patch_case(rng, i) for i in range(n_p)]
+    ac = [gen_amp_case(rng, i) for i in range(n_a)]
+    xc = x64_cases()
+    bad_p, bad_a, bad_x = None, None, None
+    outs = []
+    for chunk0 in range(0, max(len(pc), len(ac)), 450):
+        txt = COQ_HEADER
+        txt += "Definition pcs : list pcase := " + _lst(l for l, _ in pc[chunk0:chunk0 + 450]) + ".\n"
+        txt += "Eval vm_compute in bad_idx_ pcase_ok 0 pcs.\n"
+        txt += "Eval vm_compute in bad_idx_ pcase_ok_tol 0 pcs.\n"
+        txt += "Definition acs : list acase := " + _lst(l for l, _ in ac[chunk0:chunk0 + 450]) + ".\n"
+        txt += "Eval vm_compute in bad_idx_ acase_ok 0 acs.\n"
+        txt += "Eval vm_compute in bad_idx_ acase_ok_tol 0 acs.\n"
+        if chunk0 == 0:
+            def xl(c):
+                which, prev, en, sets, raises, seen, after, oc = c
+                body = f"(fun fl => ({_b(sets) if sets is not None else 'fl'}, {'Raised' if raises else 'Returned'}))"
+                fn = {"T": "temporary_x64", "F": "force_x64", "TF": "to_onnx_x64"}[which]
+                return (f"(let r := {fn} {_b(en)} {body} {_b(prev)} in Bool.eqb (fst r) {_b(after)} && outcome_eqb (snd r) {oc})")
+            txt += "Definition xcs : list bool := " + _lst(xl(c) for c in xc) + ".\n"
+            txt += "Eval vm_compute in bad_idx_ (fun b : bool => b) 0 xcs.\n"
+        ok, out = common.coq_eval_file(ctx, f"c13_tie_{chunk0}", txt, timeout=600)
+        vals = _parse_coq_values(out) if ok else []
+        outs.append((ok, out, vals, chunk0))
+    bad_p, bad_a, bad_x, coq_fail = [], [], [], ""
+    worse_p, worse_a = [], []
+    for ok, out, vals, c0 in outs:
+        if not ok or len(vals) < 4 or any(v is None for v in vals[:4]):
+            coq_fail = out[-1500:]
+            continue
+        bad_p += [c0 + i for i in vals[0]]
+        worse_p += [c0 + i for i in vals[1]]
+        bad_a += [c0 + i for i in vals[2]]
+        worse_a += [c0 + i for i in vals[3]]
+        if c0 == 0:
+            bad_x = vals[4] if len(vals) > 4 and vals[4] is not None else [-1]
+    # tolerance (pcase_ok_tol / acase_ok_tol): an implementation that restores MORE than the model
+    # (entries equal to the initial state where the model predicts a leak or a materialisation) is
+    # not a broken tie; everything else is
+    better_p = [i for i in bad_p if i not in worse_p]
+    better_a = [i for i in bad_a if i not in worse_a]
+    for i in worse_p:
+        info = pc[i][1]
+        if not info["lookup_restored"]:
+            ctx.violate(f"apply_patches-leak:synthetic:fault={info['fault']}",
+                        f"apply_patches leaves getattr changed on synthetic targets where the model restores it (case {i})",
+                        {"kind": "synthetic_patch", "seed": ctx.seed, "case": i, "n_patch_cases": len(pc), "model": info["model"],
+                         "before": info["before"], "after": info["after"]})
+    for i in worse_a:
+        info = ac[i][1]
+        if not info["lookup_restored"]:
+            ctx.violate(f"apply_monkey_patches-leak:synthetic:depth={info['depth']}:enter_fault={info['enter_fault']}",
+                        f"apply_monkey_patches leaves getattr changed on synthetic targets in a way the model does not predict (case {i})",
+                        {"kind": "synthetic_amp", "seed": ctx.seed, "case": i, "n_patch_cases": len(pc), "model": info["model"],
+                         "before": info["before"], "after": info["after"]})
+    ctx.oblige(f"tie:apply_patches-model-equals-code({len(pc)} cases, fault at every position)", not coq_fail and not worse_p, "tie",
+               coq_fail or ("" if not worse_p else f"model and code differ on cases {worse_p[:8]}: {[pc[i][1]['model'] for i in worse_p[:2]]}"))
+    ctx.oblige(f"tie:apply_monkey_patches-model-equals-code({len(ac)} cases, depth 1-3)", not coq_fail and not worse_a, "tie",
+               coq_fail or ("" if not worse_a else f"model and code differ on cases {worse_a[:8]}"))
+    ctx.oblige(f"tie:x64-managers-model-equals-code({len(xc)} cases)", not coq_fail and bad_x == [], "tie",
+               coq_fail or ("" if bad_x == [] else f"differ on {[xc[i] for i in (bad_x or [])[:5] if i >= 0]}"))
+    fh = {}
+    for _l, info in pc:
+        fh[info["fault"]] = fh.get(info["fault"], 0) + 1
+    distinct_p = len({json.dumps(info["model"], sort_keys=True) for _l, info in pc})
+    nontrivial_p = sum(1 for _l, info in pc if info["specs"] > 0 and (info["fault"] != "none" or info["dups"] or not info["perfect"]))
+    ctx.coverage.update({
+        "tie_apply_patches": {"cases": len(pc), "distinct": distinct_p, "fault_histogram": fh,
+                              "with_duplicates": sum(1 for _l, i in pc if i["dups"]),
+                              "with_multiple_inheritance": sum(1 for _l, i in pc if i["multi_inherit"]),
+                              "getattr_not_restored_in_model_and_code": sum(1 for _l, i in pc if not i["lookup_restored"]),
+                              "own_dict_changed_getattr_equal": sum(1 for _l, i in pc if i["lookup_restored"] and not i["perfect"]),
+                              "implementation_restores_more_than_model": len(better_p)},
+        "tie_apply_monkey_patches": {"cases": len(ac), "enter_faults": sum(1 for _l, i in ac if i["enter_fault"]),
+                                     "body_raises": sum(1 for _l, i in ac if i["body_raises"]),
+                                     "depth_histogram": {d: sum(1 for _l, i in ac if i["depth"] == d) for d in (1, 2, 3)},
+                                     "with_duplicates": sum(1 for _l, i in ac if i["dups"]),
+                                     "implementation_restores_more_than_model": len(better_a)},
+        "tie_x64": {"cases": len(xc)},
+    })
+
+    # ---- workers
+    hist, herr = _collect(p_hist, hist_out, 900 if quick else 3000)
+    poison, perr = _collect(p_poison, poison_out, 600)
+    ctx.oblige("real-process:history-worker-completed", hist is not None, "tie", herr)
+    ctx.oblige("real-process:enter-fault-worker-completed", poison is not None, "tie", perr)
+    if poison is not None:
+        for f in poison["findings"]:
+            ctx.violate(f["key"], f["what"], f["replay"])
+        ctx.coverage["amp_enter_fault_probe"] = {k: poison.get(k) for k in
+                                                 ("raised", "leaked", "leaked_library", "patch_state", "eager_after", "jit_after")}
+    if hist is None:
+        return ctx
+
+    # ---- (c) the model on the REAL spec list of this run
+    d = hist["dump"]
+    tn, an = d["targets"], d["attrs"]
+    obs0, obs1 = hist["obs0"], hist["obs1"]
+    key_set = {(t, a) for (t, a) in d["amp"]} | {(t, a) for fr in d["frames"] for (t, a, _k, _n) in fr}
+    inadequate = [(tn[o[0]], an[o[1]]) for o in obs0 if not o[4] and (o[0], o[1]) in key_set]
+    inadequate_scope = [k for k in inadequate if _scope(k[0])]
+    ctx.oblige("side-condition:model-adequate-on-every-patched-library-key(getattr = first own entry along MRO)",
+               not inadequate_scope, "tie", "" if not inadequate_scope else f"getattr is not an MRO dict scan for {inadequate_scope[:6]}")
+    own_l = [(o[0], o[1], o[2]) for o in obs0 if o[2] is not None]
+    frames_m = []
+    g = 0
+    if d["amp"]:
+        fr = []
+        for (t, a) in d["amp"]:
+            g += 1
+            fr.append(("monkey", t, a, 1000000 * g))
+        frames_m.append(fr)
+    for fr0 in d["frames"]:
+        fr = []
+        for (t, a, kind, _n) in fr0:
+            g += 1
+            fr.append(("assign", t, a, 1000000 * g) if kind == "assign" else ("monkey", t, a, 1000000 * g))
+        frames_m.append(fr)
+    keys_flat = [(s[1], s[2]) for fr in frames_m for s in fr]
+    univ = [(o[0], o[1]) for o in obs0]
+    inad_idx = {(o[0], o[1]) for o in obs0 if not o[4]}
+
+    def frames_lit(fault_at=None):
+        return _lst(f"({_lst(_spec_lit(s) for s in fr)},{_fault_lit(fault_at[1]) if fault_at and fault_at[0] == i else 'NoFault'})"
+                    for i, fr in enumerate(frames_m))
+    txt = COQ_HEADER
+    txt += "Definition ml : list (target * list target) := " + _lst(f"({i},{_lst(map(str, m))})" for i, m in enumerate(d["mro"])) + ".\n"
+    txt += "Definition ol : list (target * attr * value) := " + _lst(f"({t},{a},{v}%N)" for (t, a, v) in own_l) + ".\n"
+    txt += "Definition univ : list key := " + _lst(f"({t},{a})" for (t, a) in univ) + ".\n"
+    txt += "Definition ks : list key := " + _lst(f"({t},{a})" for (t, a) in keys_flat) + ".\n"
+    txt += f"Definition fr0 := {frames_lit()}.\n"
+    txt += "Eval vm_compute in predicted_diffs ml ol fr0 univ.\n"
+    txt += "Eval vm_compute in real_clashes ml ol ks.\n"
+    txt += "Eval vm_compute in real_incoherent ml ol ks univ.\n"
+    nonempty = [i for i, fr in enumerate(frames_m) if fr]
+    fvar = []
+    for _ in range(4 if quick else 40):
+        i = rng.choice(nonempty)
+        fvar.append((i, rng.choice([("BeforeSet", rng.randrange(len(frames_m[i]))), "InBody"])))
+    for j, fv in enumerate(fvar):
+        txt += f"Definition fr{j + 1} := {frames_lit(fv)}.\n"
+        txt += f"Eval vm_compute in fst (predicted_diffs ml ol fr{j + 1} univ).\n"
+    t_c = time.time()
+    ok, out = common.coq_eval_file(ctx, "c13_real_specs", txt, timeout=900)
+    vals = _parse_coq_values(out) if ok else []
+    if ok and vals and isinstance(vals[0], tuple):
+        vals = [list(vals[0][0]), list(vals[0][1])] + vals[1:]
+    if not ok or len(vals) < 4 + len(fvar) or any(v is None for v in vals[:4 + len(fvar)]):
+        ctx.oblige("tie:model-on-real-spec-list-evaluates", False, "tie", out[-1500:])
+        return ctx
+    pred_lookup, pred_own, clashes, incoh = vals[0], vals[1], vals[2], vals[3]
+    pred_lookup = {tuple(k) for k in pred_lookup}
+    pred_own = {tuple(k) for k in pred_own}
+    o0 = {(o[0], o[1]): o for o in obs0}
+    o1 = {(o[0], o[1]): o for o in obs1}
+    real_lookup = {k for k in o0 if o0[k][3] != o1[k][3]}
+    real_own = {k for k in o0 if o0[k][2] != o1[k][2]}
+    nm = lambda k: f"{tn[k[0]]}.{an[k[1]]}"
+    # the model explains every leak of the real process (one direction: an implementation that leaks less is fine)
+    unexplained = sorted(nm(k) for k in real_lookup - pred_lookup if k not in inad_idx)
+    ctx.oblige(f"tie:model-on-real-spec-list-explains-every-getattr-change({len(keys_flat)} specs, {len(univ)} observed keys)",
+               not unexplained, "tie", "" if not unexplained else f"real process changed {unexplained[:6]}, model predicts no change")
+    unexplained_own = sorted(nm(k) for k in real_own - pred_own if k not in inad_idx)
+    ctx.oblige("tie:model-on-real-spec-list-explains-every-own-dict-change", not unexplained_own, "tie",
+               "" if not unexplained_own else f"real own dicts changed at {unexplained_own[:6]}, model predicts no change")
+    # side condition no_inherited_clash: every clash must be witnessed by a real leak (then it is a finding)
+    clash_keys = {tuple(c[1]) for c in clashes}
+    unwitnessed = sorted(nm(k) for k in clash_keys if k not in real_lookup)
+    end_lookup = {(o[0], o[1]): o[3] for o in hist["obs_end"]}
+    still_fine = all(end_lookup.get(k) == o0[k][3] for k in clash_keys if k not in real_lookup)
+    model_pessimistic = bool(better_p) and still_fine
+    ctx.oblige("side-condition:no_inherited_clash(real spec list) or every clash witnessed by a real leak",
+               not unwitnessed or model_pessimistic, "tie",
+               "" if not unwitnessed else f"patched ancestor before unowned inheriting key at {unwitnessed[:6]} but no leak observed"
+               + ("; the running apply_patches restores more than the model on the synthetic ties, so the side condition of the "
+                  "modelled code is no longer needed" if model_pessimistic else ""))
+    ctx.oblige("side-condition:mro_coherent(real spec list, every observed class and subclass)", not incoh, "tie",
+               "" if not incoh else f"materialising would shadow another base for {[nm(tuple(k)) for k in incoh[:6]]}")
+    fault_extra = []
+    for j, fv in enumerate(fvar):
+        extra = {tuple(k) for k in vals[4 + j]} - pred_lookup
+        if extra:
+            fault_extra.append((fv, sorted(nm(k) for k in extra)[:4]))
+    ctx.oblige(f"model-on-real-spec-list:faulted-activations-leak-nothing-more({len(fvar)} fault points)", not fault_extra, "tie",
+               str(fault_extra[:3]))
+    ctx.coverage["real_spec_list"] = {
+        "amp_keys": len(d["amp"]), "amp_duplicate_keys_dropped": d["amp_dups"], "leaf_plugin_frames": len(d["frames"]),
+        "leaf_specs": sum(len(f) for f in d["frames"]), "targets_in_universe": len(tn), "observed_keys": len(univ),
+        "keys_not_owned_by_target": sum(1 for k in set(keys_flat) if o0.get(k) and o0[k][2] is None),
+        "keys_missing_entirely": sum(1 for k in set(keys_flat) if o0.get(k) and o0[k][3] is None),
+        "clashes(ancestor, key)": [(tn[c[0]], nm(tuple(c[1]))) for c in clashes],
+        "predicted_getattr_changes": sorted(nm(k) for k in pred_lookup), "real_getattr_changes": sorted(nm(k) for k in real_lookup if k not in inad_idx),
+        "predicted_own_only_changes": sorted(nm(k) for k in pred_own - pred_lookup),
+        "real_own_only_changes": sorted(nm(k) for k in real_own - real_lookup),
+        "predicted_but_not_observed": sorted(nm(k) for k in pred_lookup - real_lookup),
+        "keys_outside_model(metaclass fall-back; not library objects)": [f"{a}.{b}" for a, b in inadequate],
+        "fault_points_evaluated": [str(f) for f in fvar], "coq_seconds": round(time.time() - t_c, 1),
+    }
+
+    # ---- (d) real process: every getattr-level difference is a violation, keyed by the attribute
+    for dd in hist.get("lookup_diffs", []):
+        why = ""
+        for c in clashes:
+            if nm(tuple(c[1])) == dd["attr"]:
+                why = (f" (inherited clash: {tn[c[0]]}.{an[c[1][1]]} is patched before the inheriting {dd['attr']}, which "
+                       "does not own the attribute; it saves the patched parent value as its original and unwinding writes it back)")
+        ctx.violate(f"attr-leak:{dd['attr']}",
+                    f"after to_onnx ({dd['first_seen_after']}) {dd['attr']} resolves to {dd['after']} instead of {dd['before']}{why}",
+                    {"kind": "history", "seed": ctx.seed, "step": dd["step"], "attr": dd["attr"]})
+    for f in hist["findings"]:
+        ctx.violate(f["key"], f["what"], f["replay"])
+
+    # ---- (e) jit trace cache: every failure of the real process is one the model predicts
+    evs_all, cache_unexplained, n_ev = [], [], 0
+    for ci, c in enumerate(hist["cache_cases"]):
+        ev_lit = _lst((f"EExport {g_} {a_}" if e in ("X", "XF") else f"EEager {g_} {a_}") for (e, g_, a_) in c["events"])
+        evs_all.append((ev_lit, [r for r in c["results"] if r["ev"] == "E"]))
+        n_ev += len(c["events"])
+    txt = COQ_HEADER + "Definition res_code (r : eager_result) : nat := match r with EagerOk => 0 | NoMlirRule => 1 end.\n"
+    for i, (lit, _r) in enumerate(evs_all):
+        txt += f"Eval vm_compute in map res_code (run_events {lit} []).\n"
+    ok, out = common.coq_eval_file(ctx, "c13_cache", txt, timeout=300)
+    vals = _parse_coq_values(out) if ok else []
+    pess = 0
+    if not ok or len(vals) != len(evs_all):
+        ctx.oblige("tie:trace-cache-model-evaluates", False, "tie", out[-1000:])
+    else:
+        for i, ((lit, rs), mv) in enumerate(zip(evs_all, vals)):
+            for r, m in zip(rs, mv):
+                if not r["ok"] and m == 0:
+                    cache_unexplained.append((hist["cache_cases"][i]["events"], r))
+                if r["ok"] and m == 1:
+                    pess += 1
+        ctx.oblige(f"tie:trace-cache-model-explains-every-eager-failure({len(evs_all)} histories, {n_ev} events)", not cache_unexplained,
+                   "tie", str(cache_unexplained[:3]))
+    st = hist["stats"]
+    ctx.coverage.update({
+        "real_process": {"conversions": st["conversions"], "succeeded": st["ok"], "raised": st["raised"], "step_kinds": st["kinds"],
+                         "snapshots_compared": st["snapshots"], "snapshot_objects": hist["notes"]["snapshot_objects"],
+                         "snapshot_entries": hist["notes"]["snapshot_entries"], "eager_probe_calls": st["probe_calls"],
+                         "benign_own_dict_only_changes(getattr equal)": [x["attr"] for x in hist.get("own_only_diffs", [])],
+                         "non_callable_data_rebound_by_libraries(not patch keys)": [x["attr"] for x in hist.get("data_rebinds", [])][:20],
+                         "attributes_added(not module-valued)": [a["attr"] for a in hist.get("added", []) if not a["module_valued"]][:20],
+                         "worker_seconds": hist["wall"]},
+        "trace_cache": {"histories": len(evs_all), "events": n_ev, "model_pessimistic_on": pess,
+                        "callee_without_substituted_functions_after_export": hist["notes"].get("callee_without_substituted_functions_after_export")},
+        "evaluations": len(pc) + len(ac) + len(xc) + len(univ) * (1 + len(fvar)) + st["conversions"] + st["probe_calls"] + n_ev,
+        "distinct_nontrivial": nontrivial_p + sum(1 for _l, i in ac if i["enter_fault"] or i["body_raises"] or i["depth"] > 1)
+                               + st["raised"] + len([c for c in hist["cache_cases"] if len(c["events"]) > 1]),
+        "rule": "non-trivial = synthetic apply_patches case with >=1 spec and (a fault, a duplicate key, or an own-dict change), "
+                "apply_monkey_patches case with nesting depth > 1 / raising body / enter fault, a real conversion that raised, "
+                "or a jit-cache history with >= 2 events; measured on this run",
+        "fault_position_histogram": fh,
+    })
+    ctx.samples = ([{"step": s["label"], "raised": s["raised"]} for s in hist["steps"][:6]]
+                   + [{"synthetic_case": pc[i][1]["model"], "fault": pc[i][1]["fault"]} for i in range(2)]
+                   + [{"jit_cache": c["events"], "results": [r.get("export") or ("ok" if r.get("ok") else "NoMlirRule") for r in c["results"]]}
+                      for c in hist["cache_cases"][:3]])
+    return ctx
+
+
+def replay(path):
+    r = json.load(open(path))
+    rp = r.get("replay", {})
+    kind = rp.get("kind")
+    tmp = tempfile.mkdtemp(prefix="c13r-")
+    if kind == "poison":
+        p = _spawn("poison", 0, "quick", os.path.join(tmp, "o.json"))
+        res, err = _collect(p, os.path.join(tmp, "o.json"), 600)
+        print(json.dumps(res, indent=1) if res else err)
+        return 1 if res and res["findings"] else 0
+    if kind in ("history", "jit_cache"):
+        p = _spawn("history", rp.get("seed", 0), "quick", os.path.join(tmp, "o.json"))
+        res, err = _collect(p, os.path.join(tmp, "o.json"), 900)
+        if not res:
+            print(err)
+            return 2
+        keys = [f["key"] for f in res["findings"]] + [f"attr-leak:{d['attr']}" for d in res.get("lookup_diffs", [])]
+        print("findings now:", keys)
+        return 1 if r.get("key") in keys else 0
+    if kind in ("synthetic_patch", "synthetic_amp"):
+        import random
+        rng = random.Random(rp.get("seed", 0))
+        n_p = rp.get("n_patch_cases", 360)
+        info = None
+        if kind == "synthetic_patch":
+            for i in range(rp["case"] + 1):
+                _l, info = gen_patch_case(rng, i)
+        else:
+            for i in range(n_p):
+                gen_patch_case(rng, i)
+            for i in range(rp["case"] + 1):
+                _l, info = gen_amp_case(rng, i)
+        print("model input:", json.dumps(info["model"])[:1500])
+        print("getattr before:", [x[3] for x in info["before"]])
+        print("getattr after: ", [x[3] for x in info["after"]])
+        return 0 if info["lookup_restored"] else 1
+    print("replay data:", json.dumps(rp)[:2000])
+    return 1
 
 
 if __name__ == "__main__":
